@@ -119,7 +119,7 @@ class TeeStoreLogger:
         self.acked = True
 
 
-def make_config(path, k, rewriter_name, flt, logger_box, faults, sample_rate=None, k_decoy=None):
+def make_config(path, k, rewriter_name, flt, logger_box, faults, sample_rate=None, k_decoy=None, minimal_store=False):
     """A Config whose answers are read from a mutable `state` dict, so that ONE Config object can be
     reused across sessions whose settings differ (as a long-lived deployment would)."""
     from monkeytype.config import Config
@@ -128,6 +128,26 @@ def make_config(path, k, rewriter_name, flt, logger_box, faults, sample_rate=Non
 
     state = {"k": k, "faults": faults, "box": logger_box, "rate": sample_rate, "flt": flt, "rewriter": rewriter_name,
              "in_ctx": 0, "k_decoy": k_decoy, "decoy_reads": 0, "ctx_entered": 0}
+
+    from monkeytype.db.base import CallTraceStore
+
+    class MinimalStore(CallTraceStore):
+        """A project's own store that implements only what the interface requires (add / filter / make_store); the optional
+        list_modules() keeps the base class's default, which raises NotImplementedError."""
+
+        def __init__(self, inner):
+            self.inner = inner
+            self.conn = inner.conn
+
+        def add(self, traces):
+            return self.inner.add(traces)
+
+        def filter(self, module, qualname_prefix=None, limit=2000):
+            return self.inner.filter(module, qualname_prefix, limit)
+
+        @classmethod
+        def make_store(cls, connection_string):
+            return cls(SQLiteStore.make_store(connection_string))
 
     class SimConfig(Config):
         @contextlib.contextmanager
@@ -142,6 +162,8 @@ def make_config(path, k, rewriter_name, flt, logger_box, faults, sample_rate=Non
                 state["in_ctx"] -= 1
 
         def trace_store(self):
+            if minimal_store:
+                return MinimalStore.make_store(path)
             return SQLiteStore.make_store(path)
 
         def trace_logger(self):
@@ -208,9 +230,16 @@ def run_sessions(plan, lp, workdir):
             s.k = ses["k"]
             s.exc = None
             s.day = clock.days
+            outer_cm = contextlib.nullcontext()
+            if ses.get("outer_k") is not None:
+                # the session runs nested inside another tracing block whose configuration differs (own store, other limit)
+                outer_box = []
+                outer_cfg = make_config(os.path.join(workdir, "outer.sqlite3"), ses["outer_k"], plan["rewriter"], flt, outer_box, None)
+                outer_cm = monkeytype.trace(outer_cfg)
             try:
-                with monkeytype.trace(cfg):
-                    D.run_top(top)
+                with outer_cm:
+                    with monkeytype.trace(cfg):
+                        D.run_top(top)
             except Exception as e:
                 s.exc = "%s: %s" % (type(e).__name__, e)
             sys.setprofile(None)
@@ -242,11 +271,11 @@ def run_sessions(plan, lp, workdir):
     return out, path
 
 
-def run_cli(argv_tail, path, k, rewriter_name, pre=(), k_decoy=None):
+def run_cli(argv_tail, path, k, rewriter_name, pre=(), k_decoy=None, minimal_store=False):
     """cli.main in-process with a synthetic config module. Returns (rc, stdout, stderr, exception)."""
     from monkeytype import cli
 
-    cfg = make_config(path, k, rewriter_name, None, [], None, k_decoy=k_decoy)
+    cfg = make_config(path, k, rewriter_name, None, [], None, k_decoy=k_decoy, minimal_store=minimal_store)
     mod = types.ModuleType("simcfg_verif")
     mod.CONFIG = cfg
     sys.modules["simcfg_verif"] = mod
